@@ -7,7 +7,7 @@ open Gleece.Paths
 def conflictsToJson (cs : List Conflict) : Json :=
   Json.arr (cs.map fun c => Json.mkObj [("a", c.a.id), ("b", c.b.id), ("reason", c.reason)]).toArray
 
-def pathsHandler : Handler := fun input impl => do
+def pathsHandler : Handler := fun _prop input impl => do
   let arr ← input.getArr?
   let raw ← arr.toList.mapM fun j => do pure ((← jstr j "verb"), (← jstr j "path"))
   let es := mkEntries raw
